@@ -163,9 +163,12 @@ func c04JudgeLayout(tf c04TimeFormat, readerLayouts []string, customReader, need
 		return core.Violated, what + " is formatted by hand with layout \"" + l + "\" and read back by time.Time's own unmarshaler (RFC 3339, nanoseconds): " + loss + "; the written document does not give the value back (a time written by the codec itself uses time.RFC3339Nano)"
 	case customReader && len(readerLayouts) == 0:
 		return core.Undecided, what + " is formatted by hand with layout \"" + l + "\" but the type's own unmarshaler parses no time with a constant layout"
-	case customReader && !c04Contains(readerLayouts, l):
-		return core.Violated, what + " is formatted by hand with layout \"" + l + "\" but the type's own unmarshaler parses with \"" + strings.Join(readerLayouts, "\", \"") + "\": what is written is not read back"
+	case customReader && !c04LayoutReadByAny(l, readerLayouts):
+		return core.Violated, what + " is formatted by hand with layout \"" + l + "\" but the type's own unmarshaler parses with \"" + strings.Join(readerLayouts, "\", \"") + "\": what is written is not read back (time.Parse accepts a fractional-seconds field the layout does not name only right after the seconds)"
 	case customReader && needFraction && !c04LayoutKeepsFraction(l):
+		if _, frac := c04SplitFraction(l); frac != "" {
+			return core.Violated, what + " is formatted by hand with layout \"" + l + "\", whose fractional-seconds field `" + frac + "` is shorter than nanoseconds: the rest of the sub-second part of the time is dropped on marshalling"
+		}
 		return core.Violated, what + " is formatted by hand with layout \"" + l + "\", which has no fractional-seconds field: the sub-second part of the time is dropped on marshalling"
 	}
 	return core.Discharged, what + " is formatted with layout \"" + l + "\", which its reader parses"
@@ -227,8 +230,9 @@ func c04X8(r *core.R) {
 				}
 				n++
 				what := "the time `" + src(r.P.Fset, tf.ev.Call) + "` written by " + root.name
-				// a format both sides of the library agree on is an external format (OSM notes): precision is its business
-				status, msg := c04JudgeLayout(tf, layouts, custom, false, what)
+				// the reader accepts a fractional-seconds field after the seconds whatever its layout says (c04_layout.go),
+				// so the writer has to keep the sub-second part of the time
+				status, msg := c04JudgeLayout(tf, layouts, custom, true, what)
 				v.put(status, c, tf.ev.Node.Pos(), "%s", msg)
 			}
 		}
